@@ -250,6 +250,23 @@ theorem failed_finalize_closes (o : WOpts) (s : Store) (flt : Fault) (evs : List
   simp only [hv2, hopen.1, hopen.2, he, hfire, ↓reduceIte, Bool.false_eq_true, false_or, and_false]
   cases s.api <;> simp
 
+/-- (4b) … and a RETRY does not paper over it: after a Finalize whose write failed, a second Finalize (and
+    FinalizeReadOnly, and any Put) on the same read-write blockstore reports an error and writes nothing — it
+    never reports success over the half-written file. -/
+theorem failed_finalize_retry_refused (o : WOpts) (s : Store) (flt : Fault) (evs : List WriteEv)
+    (hv2 : o.v1 = false) (hapi : s.api = .blockstore) (hopen : s.finalized = false ∧ s.closed = false)
+    (he : s.finalizeEvs o = some evs) (hfire : flt.call < evs.length) (c : Cid) (d : Bytes) :
+    let s' := (s.finalizeF o (some flt)).1
+    (∃ e, (s'.step o .finalize).2.1 = .err e) ∧ (s'.step o .finalize).2.2 = [] ∧ (s'.step o .finalize).1.file = s'.file ∧
+    (∃ e, (s'.step o .finalizeRO).2.1 = .err e) ∧ (s'.step o .finalizeRO).2.2 = [] ∧
+    (s'.step o (.put c d)).2.1 = .err .closed ∧ (s'.step o (.put c d)).2.2 = [] := by
+  have h : s.finalizeF o (some flt)
+      = ({ s.applyEvs (faultyPrefix evs flt) with finalized := true, closed := true }, .err .other, faultyPrefix evs flt) := by
+    unfold Store.finalizeF
+    simp [hv2, hopen.1, hopen.2, hapi, he, hfire]
+  simp only [h]
+  refine ⟨?_, ?_, ?_, ?_, ?_, ?_, ?_⟩ <;>
+    simp [Store.step, Store.applyEvs, hapi, Store.stepBlockstore, Store.finalizeRO, Store.closeInner, hv2]
 /-- (5b) A failed `FinalizeReadOnly` (read-write blockstore, CARv2 mode, fault on any of its writes) returns
     an error and leaves the store finalized but open; from then on **no finalizing call and no write
     reports success**: a second `FinalizeReadOnly` and `Finalize` are refused, `Put` is refused (lookups
